@@ -62,6 +62,7 @@ type Contract struct {
 	Pos      token.Position
 	File     *ast.File
 	Params   []string // for externs/functypes without resolvable decl: optional names
+	Observes   []*Observe
 	Pairs      string       // the load-time checker whose acceptance establishes the `checked` clauses
 	Checked    []*Clause    // facts established at load time by the paired checker (assumed at entry, proved as lemmas from the checker's postconditions)
 	NoInv      []string     // parameters whose object invariant is neither assumed at entry nor required at calls (initialisers)
@@ -74,6 +75,14 @@ type Contract struct {
 
 // GhostField: `ghost depth int = <expr over self>  on Before` : a specification-only
 // field whose value is recomputed whenever one of the `on` fields of the object is stored.
+// Observe: a state expression of the callee's pre-state recorded in the caller's ghost call
+// trace at every call (`//@ observe name type = expr`), read back with callobs(F, k, name).
+type Observe struct {
+	Name, Type, Text string
+	Expr             SExpr
+	Pkg              string
+}
+
 type GhostField struct {
 	Name string
 	Type string
@@ -320,6 +329,17 @@ func (cs *ContractSet) readFile(fset *token.FileSet, f *ast.File, pkgPath, pkgNa
 						errf(pos, "%v", err)
 					}
 					cur.Ghosts = append(cur.Ghosts, &GhostField{Name: m[1], Type: m[2], Text: m[3], Expr: ex, On: splitProps(m[4])})
+				case "observe":
+					m := regexp.MustCompile(`^(\w+)\s+(\S+)\s*=\s*(.*)$`).FindStringSubmatch(rest)
+					if m == nil {
+						errf(pos, "bad observe (want: observe name type = expr)")
+						continue
+					}
+					ex, err := parseSpec(m[3])
+					if err != nil {
+						errf(pos, "%v", err)
+					}
+					cur.Observes = append(cur.Observes, &Observe{Name: m[1], Type: m[2], Text: m[3], Expr: ex, Pkg: pkgPath})
 				case "loop":
 					n := 0
 					fmt.Sscanf(rest, "%d", &n)
